@@ -19,6 +19,7 @@ sys.path.insert(0, os.path.join(vlib.VERIF, "gen"))
 import progen  # noqa: E402
 import render  # noqa: E402
 import c16_names as cn  # noqa: E402
+import c16_decl as cdecl  # noqa: E402
 
 META = {
     "title": "Generated C is valid under every C-generation option",
@@ -346,6 +347,316 @@ def scenarios(chk, b, wd, colp, exp, frame, rnd, libs0):
         judge("foreign-builtin-exports-split", res, opts, ev)
     return out
 
+
+# ---------------------------------------------------------------------------------------------------------------
+# file splitting at its boundaries (CSplitFn.tla / CSplit.tla / CSplitPlan.tla)
+
+def measure_estimate(build, d, text, qopts):
+    """The statement estimate S of the unit `text' as the compiler computes it under qopts: the smallest -Csmax=<N> under
+    which the unit is NOT split (observed: no <unit>.h is written), found by doubling + bisection.  Returns (S, probes)
+    or (None, why)."""
+    os.makedirs(d, exist_ok=True)
+    open(os.path.join(d, "p.as"), "w").write(text)
+    probes = {}
+
+    def split_at(n):
+        if n in probes:
+            return probes[n]
+        for f in glob.glob(os.path.join(d, "*.[ch]")):
+            os.unlink(f)
+        rc, out, err, to = vlib.aldor(build, list(qopts) + ["-Csmax=%d" % n, "-Fc", "p.as"], d, timeout=120)
+        if rc != 0 or to:
+            raise RuntimeError("aldor -Csmax=%d: rc=%s %s" % (n, rc, (out + err).decode(errors="replace")[-300:]))
+        probes[n] = (os.path.exists(os.path.join(d, "p.h")), len(glob.glob(os.path.join(d, "*.c"))))
+        return probes[n]
+    try:
+        lo, hi = 1, 64                  # invariant: split at lo (or lo = 0), not split at hi
+        if not split_at(1)[0]:
+            return 1, probes            # S <= 1
+        while split_at(hi)[0]:
+            lo, hi = hi, hi * 2
+            if hi > (1 << 20):
+                return None, "still split at -Csmax=%d" % lo
+        while hi - lo > 1:
+            mid = (lo + hi) // 2
+            if split_at(mid)[0]:
+                lo = mid
+            else:
+                hi = mid
+        return hi, probes
+    except RuntimeError as ex:
+        return None, str(ex)
+    finally:
+        for f in glob.glob(os.path.join(d, "*.[ch]")):
+            os.unlink(f)
+
+
+def split_plan(chk, units):
+    """units: [(id, S, small)] -> {id: [row]} from CSplitPlan.tla (TLC)."""
+    d = vlib.scratch("c16p")
+    path = os.path.join(d, "split.ndjson")
+    vlib.write_ndjson(path, [{"id": i, "S": s, "small": bool(sm)} for (i, s, sm) in units])
+    r = vlib.tlc("CSplitPlan", "CSplitPlan", workers=1, timeout=300, env={"C16_SPLIT": path})
+    chk.add_tlc("CSplitPlan", r)
+    if r.violated:
+        raise vlib.MachineryError("CSplitPlan: %s\n%s" % (r.violated, r.out[-1500:]))
+    plan = {}
+    for l in r.printed:
+        if isinstance(l, str) and l.startswith("PLAN "):
+            rec = json.loads(l[5:])
+            plan[rec["id"]] = rec["rows"]
+    if len(plan) != len(units):
+        raise vlib.MachineryError("CSplitPlan exported %d plans for %d units" % (len(plan), len(units)))
+    return plan
+
+
+def relation(S, n):
+    """How the limit n lies to the estimate S (part of violation keys and of the evidence)."""
+    if n == S:
+        return "N=S"
+    if n in (S - 1, S - 2):
+        return "N=S-%d" % (S - n)
+    if n in (S + 1, S + 2):
+        return "N=S+%d" % (n - S)
+    if n <= 2:
+        return "N=%d" % n
+    if S % n == 0:
+        return "S=%d*N" % (S // n)
+    if S % n == 1:
+        return "S=%d*N+1" % (S // n)
+    return "S=%d*N+r" % (S // n)
+
+
+def decl_eval(chk, events, name):
+    """One TLC run of CDeclEval.tla over `events' (programs to evaluate and/or recorded heads to judge)."""
+    d = vlib.scratch("c16d")
+    path = os.path.join(d, "decl.ndjson")
+    vlib.write_ndjson(path, events)
+    r = vlib.tlc("CDeclEval", "CDeclEval", workers=1, timeout=900, env={"C16_DECL": path})
+    chk.add_tlc(name, r)
+    if r.violated:
+        raise vlib.MachineryError("CDeclEval: %s\n%s" % (r.violated, r.out[-1500:]))
+    ends = [json.loads(l[8:]) for l in r.printed if isinstance(l, str) and l.startswith("DECLEND ")]
+    if not ends or ends[0]["events"] != len(events):
+        raise vlib.MachineryError("CDeclEval did not reach the end of its input\n" + r.out[-1500:])
+    behav = {}
+    bad = []
+    for l in r.printed:
+        if isinstance(l, str) and l.startswith("DECLBEHAV "):
+            bh = json.loads(l[10:])
+            behav[bh["id"]] = {"out": cdecl.expected_text(bh["out"]), "status": "done"}
+        elif isinstance(l, str) and l.startswith("BADHEAD "):
+            bad.append(json.loads(l[8:]))
+    return behav, bad, ends[0]
+
+
+def boundaries_and_declarators(chk, b, wd, fam, variants, tiny, quick, rnd, oldlib, decl_progs, decl_exp):
+    """8c. every unit is replayed at the limits CSplitPlan.tla derives from its MEASURED statement estimate;
+       8d. the declarator family under -Cold / -Cold -Csmax=k / -Cstandard at -Q0..-Q3, heads judged by CDeclEval.tla."""
+    info = {}
+    # ---- units: (id, text, qopts, expected, small?) ----
+    units = []
+    nsmall = 2 if quick else 8
+    qlevels = [None] if quick else [None, "0", "3"]
+    for (p, style, names, real) in [(tp, "plain", None, None) for tp in tiny] + [v for v in variants if v[1] != "crafted"][:nsmall]:
+        for q in qlevels:
+            units.append({"id": "%s@Q%s" % (p["id"], q if q is not None else "default"), "text": render.render(p, names),
+                          "qopts": ["-Q" + q] if q is not None else [], "exp": fam.exp[p["id"]], "family": "gen"})
+    for k, dp in enumerate(decl_progs[:1 if quick else 4]):
+        for q in (["1"] if quick else ["0", "2"]):
+            units.append({"id": "%s@Q%s" % (dp["id"], q), "text": cdecl.render(dp), "qopts": ["-Q" + q], "exp": decl_exp[dp["id"]],
+                          "family": "decl"})
+
+    def meas(u):
+        return measure_estimate(b, os.path.join(wd, "meas-" + re.sub(r"\W", "_", u["id"])), u["text"], u["qopts"])
+    with concurrent.futures.ThreadPoolExecutor(max_workers=vlib.NCPU) as ex:
+        ms = list(ex.map(meas, units))
+    measured = []
+    for u, (S, probes) in zip(units, ms):
+        if S is None:
+            raise vlib.MachineryError("statement estimate of %s could not be measured: %s" % (u["id"], probes))
+        u["S"] = S
+        u["small"] = S <= (200 if quick else 400)
+        u["probes"] = probes
+        measured.append(u)
+    plan = split_plan(chk, [(u["id"], u["S"], u["small"]) for u in measured])
+    jobs = []
+    for ui, u in enumerate(measured):
+        rows = plan[u["id"]]
+        for ri, row in enumerate(rows):
+            if row["cfiles"] > (210 if quick else 450):
+                continue
+            near = abs(row["N"] - u["S"]) <= 1
+            if quick and u["family"] == "decl" and not (near or row["cfiles"] <= 3):
+                continue
+            dialects = ("std", "old") if (not quick or near) else (("std",) if (ui + ri) % 2 == 0 else ("old",))
+            for dl in dialects:
+                jobs.append((ui, row, dl))
+
+    def do(job):
+        ui, row, dl = job
+        u = measured[ui]
+        opts = u["qopts"] + ["-Cstandard" if dl == "std" else "-Cold", "-Csmax=%d" % row["N"]]
+        kw = {}
+        if dl == "old" and u["family"] == "decl":
+            kw = {"axllib": oldlib["axllib"], "rt": oldlib["rt"]}      # narrow parameters: libraries of the same dialect
+        d = os.path.join(wd, "bnd-%d-%d-%s" % (ui, row["N"], dl))
+        res = compile_units(b, d, [("p", u["text"], True)], opts, **kw)
+        for f in glob.glob(os.path.join(d, "*.o")) + [os.path.join(d, "p")]:
+            try:
+                os.unlink(f)
+            except OSError:
+                pass
+        return res
+    with concurrent.futures.ThreadPoolExecutor(max_workers=vlib.NCPU) as ex:
+        results = list(ex.map(do, jobs))
+    chk.traces += len(jobs)
+    count_drift = []
+    rels = {}
+    for (ui, row, dl), res in zip(jobs, results):
+        u = measured[ui]
+        rel = relation(u["S"], row["N"])
+        rels[rel] = rels.get(rel, 0) + 1
+        chk.case(("split-boundary", u["id"], row["N"], dl), nontrivial=bool(row["boundary"]))
+        verdict = progcheck.classify(res, u["exp"])
+        ncf = len([f for f in res.get("cfiles", []) if f != "p-aldormain.c"])
+        if res["phase"] != "compile" and (ncf != row["cfiles"] or bool(res.get("hfiles")) != row["header"]):
+            count_drift.append({"unit": u["id"], "S": u["S"], "N": row["N"], "c_files": ncf, "model": row["cfiles"], "header": bool(res.get("hfiles"))})
+        if verdict is None:
+            continue
+        kind, sig = verdict
+        chk.violation("%s at the split boundary: unit %s (estimate S=%d) under -Csmax=%d (%s) %s: %s"
+                      % (kind, u["id"], u["S"], row["N"], rel, "-Cstandard" if dl == "std" else "-Cold", sig),
+                      {"unit": u["id"], "S": u["S"], "N": row["N"], "relation": rel, "model_row": row, "dialect": dl,
+                       "cfg": " ".join(u["qopts"] + ["-Cstandard" if dl == "std" else "-Cold", "-Csmax=%d" % row["N"]]) +
+                              (" [samedialect]" if dl == "old" and u["family"] == "decl" else " [shipped]"),
+                       "got_out": res["out"][:2000], "got_err": res["err"][:2500], "rc": res["rc"], "phase": res["phase"],
+                       "cfiles": res.get("cfiles"), "hfiles": res.get("hfiles"), "expected_out": u["exp"]["out"][:2000], "source": u["text"]},
+                      key={"kind": kind, "sig": sig, "where": "split-boundary", "relation": rel, "dialect": dl, "family": u["family"]})
+    info["split_units"] = [{"unit": u["id"], "S": u["S"], "limits": [r["N"] for r in plan[u["id"]]]} for u in measured]
+    info["split_runs_by_relation"] = rels
+    info["split_file_count_drift"] = count_drift[:10]
+    info["split_file_count_drift_count"] = len(count_drift)
+    if measured:
+        u = measured[0]
+        chk.sample({"split_unit": u["id"], "measured_estimate": u["S"], "plan": plan[u["id"]][:6]})
+
+    # ---- 8d. the declarator family ----
+    Smap = {}
+    for u in measured:
+        if u["family"] == "decl":
+            Smap[u["id"]] = u["S"]
+    djobs = []
+    nprog = 2 if quick else len(decl_progs)
+    for pi, dp in enumerate(decl_progs[:nprog]):
+        for q in ("0", "1", "2", "3"):
+            k1 = 60 + 37 * pi + 11 * int(q)                        # a few hundred statements per unit: 10..20 parts
+            cfgs = [("std", ["-Cstandard"], "shipped"), ("old", ["-Cold"], "samedialect"), ("old-split", ["-Cold", "-Csmax=%d" % k1], "samedialect")]
+            if not quick:
+                cfgs += [("std-split", ["-Cstandard", "-Csmax=%d" % (k1 + 5)], "shipped"), ("old-split2", ["-Cold", "-Csmax=%d" % (7 * k1)], "samedialect")]
+            if pi == 0 and q == "0" or (not quick and q in ("0", "1")):
+                cfgs.append(("old", ["-Cold"], "shipped"))
+            for (tag, opts, route) in cfgs:
+                djobs.append((pi, q, tag, opts, route))
+
+    def ddo(job):
+        pi, q, tag, opts, route = job
+        dp = decl_progs[pi]
+        kw = {"axllib": oldlib["axllib"], "rt": oldlib["rt"]} if route == "samedialect" else {}
+        d = os.path.join(wd, "decl-%d-q%s-%s-%s" % (pi, q, tag, route))
+        res = compile_units(b, d, [("p", cdecl.render(dp), True)], ["-Q" + q] + opts, **kw)
+        res["ctext"] = ""
+        if tag in ("std", "old") and route != "shipped" or tag == "std":
+            try:
+                res["ctext"] = open(os.path.join(d, "p.c"), errors="replace").read()
+            except OSError:
+                pass
+        return res
+    with concurrent.futures.ThreadPoolExecutor(max_workers=vlib.NCPU) as ex:
+        dres = list(ex.map(ddo, djobs))
+    chk.traces += len(djobs)
+    conform = {}
+    for job, res in zip(djobs, dres):
+        conform[job[:3] + (job[4],)] = progcheck.classify(res, decl_exp[decl_progs[job[0]]["id"]]) is None
+    per = {}
+    for (pi, q, tag, opts, route), res in zip(djobs, dres):
+        dp = decl_progs[pi]
+        exp = decl_exp[dp["id"]]
+        label = "-Q%s %s [%s]" % (q, " ".join(opts), route)
+        chk.case(("declarators", dp["id"], label), nontrivial=True)
+        st = per.setdefault("%s/%s" % (tag, route), {"runs": 0, "bad": 0})
+        st["runs"] += 1
+        verdict = progcheck.classify(res, exp)
+        if verdict is None:
+            continue
+        st["bad"] += 1
+        kind, sig = verdict
+        key = {"kind": kind, "sig": sig, "where": "declarators", "opts": opts, "route": route, "q": q}
+        if route == "shipped" and tag == "old" and kind == "wrong-output" and conform.get((pi, q, "old", "samedialect")) \
+                and conform.get((pi, q, "std", "shipped")):
+            # the same C, linked with libraries generated in the same dialect, behaves; so does the standard-C output against the
+            # shipped (standard-C) libraries: what differs is the dialect of the two sides of a call with an SFlo argument
+            key = {"kind": kind, "cause": "old-c-unit-against-standard-c-library-sflo-argument", "route": "shipped"}
+        chk.violation("%s in the declarator family: program %s under %s: %s" % (kind, dp["id"], label, sig),
+                      {"program_id": dp["id"], "cfg": label, "got_out": res["out"][:2500], "got_err": res["err"][:2500], "rc": res["rc"],
+                       "phase": res["phase"], "expected_out": exp["out"][:2500], "cfiles": res.get("cfiles"), "source": cdecl.render(dp), "abstract": dp},
+                      key=key)
+    # heads: the standard and the old output of the same program at the same level
+    events = []
+    unmatched = 0
+    by = {(pi, q, tag, route): res for (pi, q, tag, opts, route), res in zip(djobs, dres)}
+    for pi in range(nprog):
+        for q in ("0", "1", "2", "3"):
+            a, o = by.get((pi, q, "std", "shipped")), by.get((pi, q, "old", "samedialect"))
+            if a and o and a.get("ctext") and o.get("ctext"):
+                ev, odd = cdecl.head_events(decl_progs[pi]["id"], "@Q" + q, a["ctext"], o["ctext"])
+                events += ev
+                unmatched += len(odd)
+    if os.environ.get("VERIF_C16_CORRUPT") and events:
+        # self-test: one recorded old-C declaration loses its star
+        for e in events:
+            hit = [dcl for dcl in e["olddecls"] if "*" in dcl and dcl[-1] != "*"]
+            if hit:
+                hit[0].remove("*")
+                break
+    nbadheads = 0
+    hend = None
+    if events:
+        _, bad, hend = decl_eval(chk, events, "CDeclEval[heads]")
+        nbadheads = len(bad)
+        for bh in bad:
+            base = re.sub(r"^CF\d+_", "", bh["fn"])
+            chk.violation("function head of %s (program %s) is not read back as intended: %s" % (bh["fn"], bh["prog"], ", ".join(bh["problems"])),
+                          {"head": bh, "recorded": [e for e in events if e["fn"] == bh["fn"] and e["prog"] == bh["prog"]][:1]},
+                          key={"kind": "declarator-mismatch", "fn": base, "problems": sorted(re.sub(r"P\d+_\w+|R\d+", "_", x) for x in bh["problems"])})
+    intended = sum(1 for e in events if e["intended"])
+    if events and intended < 8 * nprog:
+        raise vlib.MachineryError("only %d recorded heads of the declarator family carry an intended signature" % intended)
+    info["declarator_runs"] = per
+    info["declarator_heads_judged"] = {"heads": len(events), "with_intended_kinds": intended, "bad": nbadheads, "only_in_one_dialect": unmatched, "tlc": hend}
+    if events:
+        e0 = [e for e in events if e["intended"] and any(x[0] == "arr" for x in e["intended"])][:1] or events[:1]
+        chk.sample({"recorded_head": e0[0]})
+    if decl_progs:
+        chk.sample({"declarator_program": decl_progs[0]["id"], "items": decl_progs[0]["items"][:4], "expected_out": decl_exp[decl_progs[0]["id"]]["out"][:300]})
+
+    # ---- narrow parameter types in a function exported to Foreign C (recorded finding) ----
+    for opts in (["-Cstandard"], ["-Cold"]):
+        d = os.path.join(wd, "foreign-narrow" + opts[0])
+        res = compile_units(b, d, [("p", cdecl.FOREIGN_NARROW, True)], opts)
+        chk.case(("foreign-c-export-narrow", opts[0]), nontrivial=True)
+        chk.traces += 1
+        verdict = progcheck.classify(res, {"out": "done\n", "status": "done"})
+        if verdict is not None:
+            ev = "unprototyped-declaration-conflicts-with-definition" if res["phase"] == "link" and re.search(r"conflicting types for .c16narrow", res["err"]) else None
+            key = {"kind": verdict[0], "sig": verdict[1], "where": "foreign-c-export", "opts": opts}
+            if ev:
+                key = {"kind": verdict[0], "cause": "foreign-c-export-" + ev, "dialect": opts[0]}
+            chk.violation("%s: function with an SFlo parameter exported to Foreign C under %s: %s" % (verdict[0], opts[0], verdict[1]),
+                          {"opts": opts, "got_err": res["err"][:2000], "got_out": res["out"][:500], "phase": res["phase"], "source": cdecl.FOREIGN_NARROW,
+                           "cfg": opts[0], "expected_out": "done\n"}, key=key)
+    return info
+
 # ---------------------------------------------------------------------------------------------------------------
 
 def run(chk, tier):
@@ -357,12 +668,18 @@ def run(chk, tier):
     quick = tier == "quick"
 
     # ---- 1. the models (run side by side; the libraries for the other limits are generated meanwhile) -------
-    pool = concurrent.futures.ThreadPoolExecutor(max_workers=8)
+    pool = concurrent.futures.ThreadPoolExecutor(max_workers=14)
     f_names = pool.submit(vlib.tlc, "CNames", "CNames" if quick else "CNamesDeep", workers=8 if quick else vlib.NCPU, timeout=1200)
     f_dist = pool.submit(vlib.tlc, "CNames", "CNamesDistinct", workers=4, timeout=600)
     f_distnk = pool.submit(vlib.tlc, "CNames", "CNamesDistinctNK", workers=4, timeout=600)
     f_short = None if quick else pool.submit(vlib.tlc, "CNames", "CNamesShort", workers=4, timeout=600)
     f_libs = {i: pool.submit(build_libs, b, ("-Cidlen=%d" % i,)) for i in IDLENS if i != 30}
+    # the split machine, the declarator / calling-convention model, the libraries in the old dialect, the declarator family
+    f_split = pool.submit(vlib.tlc, "CSplit", "CSplit" if quick else "CSplitDeep", workers=4 if quick else vlib.NCPU, timeout=1500)
+    f_decl = pool.submit(vlib.tlc, "CDecl", "CDecl" if quick else "CDeclDeep", workers=4 if quick else vlib.NCPU, timeout=1500)
+    f_declmixed = pool.submit(vlib.tlc, "CDecl", "CDeclMixed", workers=2, timeout=600)
+    f_oldlib = pool.submit(build_libs, b, ("-Cold",))
+    decl_progs = cdecl.generate(chk.seed % 100003, 2 if quick else 10)
     product, overrides, default_cfg, nmodel_cfgs = configurations(chk)
     chosen = choose_quick(product, rnd, 16) if quick else list(product)
     if f_short is not None:
@@ -378,6 +695,26 @@ def run(chk, tier):
     model_rows = [json.loads(l[7:]) for l in r.printed if isinstance(l, str) and l.startswith("CNAMES ")]
     if len(model_rows) < 10:
         raise vlib.MachineryError("CNames.tla exported %d rows" % len(model_rows))
+    rsp = f_split.result()
+    chk.add_tlc("CSplit", rsp)
+    if rsp.violated:
+        chk.violation("CSplit.tla: the splitting code as transcribed violates %s" % rsp.violated, rsp.trace_text, key={"model": "CSplit", "inv": rsp.violated})
+    split_rows = [json.loads(l[9:]) for l in rsp.printed if isinstance(l, str) and l.startswith("SPLITROW ")]
+    if len(split_rows) < 50 or not any(x["S"] == x["N"] for x in split_rows) or not any(x["split"] and x["S"] == 2 * x["N"] for x in split_rows):
+        raise vlib.MachineryError("CSplit.tla exported %d rows / the boundary cases are missing" % len(split_rows))
+    rdc = f_decl.result()
+    chk.add_tlc("CDecl", rdc)
+    if rdc.violated:
+        chk.violation("CDecl.tla: the parameter printer as transcribed violates %s" % rdc.violated, rdc.trace_text, key={"model": "CDecl", "inv": rdc.violated})
+    rdm = f_declmixed.result()
+    chk.add_tlc("CDeclMixed", rdm)
+    if rdm.violated:
+        # callers and callees printed in different dialects (the shipped libraries are standard C): TLC shows the SFlo argument
+        chk.violation("CDecl.tla: a caller in one dialect and a callee in the other violate %s" % rdm.violated, rdm.trace_text,
+                      key={"model": "CDecl", "inv": rdm.violated})
+    decl_exp, _, _ = decl_eval(chk, decl_progs, "CDeclEval[programs]")
+    if set(decl_exp) != set(p["id"] for p in decl_progs):
+        raise vlib.MachineryError("CDeclEval exported %d behaviours for %d programs" % (len(decl_exp), len(decl_progs)))
     # the statement itself, in the model: TLC shows the counterexample (hash of the full name is the only separator)
     for nm, fut, what in (("CNamesDistinct", f_dist, "two globals, one C name"),
                           ("CNamesDistinctNK", f_distnk, "two static closures / two unit initialisers, one C name")):
@@ -391,8 +728,13 @@ def run(chk, tier):
     nprog = 12 if quick else 44
     progs = progen.generate((chk.seed + 16) % 1000003, nprog)
     colp = cn.collision_program()
-    fam = progcheck.Family(chk, progs + [colp], "gen", workers=vlib.NCPU, timeout=1500)
-    replayable = [p for p in fam.replayable]
+    # small units for the split boundaries (a unit of S statements under -Csmax=1 is S files)
+    tiny = progen.generate((chk.seed + 16) % 1000003 + 500, 2 if quick else 5, features=["fun"]) + \
+        progen.generate((chk.seed + 16) % 1000003 + 501, 1 if quick else 4, features=["fun", "while", "rec"])
+    tiny_ids = set(p["id"] for p in tiny)
+    fam = progcheck.Family(chk, progs + tiny + [colp], "gen", workers=vlib.NCPU, timeout=1500)
+    replayable = [p for p in fam.replayable if p["id"] not in tiny_ids]
+    tiny = [p for p in fam.replayable if p["id"] in tiny_ids] + [colp]
     if colp["id"] not in [p["id"] for p in replayable]:
         raise vlib.MachineryError("the collision program has no behaviour")
     styles = {}
@@ -699,6 +1041,15 @@ def run(chk, tier):
     # ---- 8b. programs of several units -------------------------------------------------------------------------
     chk.extra["multi_unit_scenarios"] = scenarios(chk, b, wd, colp, fam.exp[colp["id"]], frame, rnd, libs.get(0) or build_libs(b, ("-Cidlen=0",)))
     marks["scenarios"] = time.time() - t_start
+    # ---- 8c/8d. split boundaries from the measured estimates; the declarator family -------------------------------
+    oldlib = f_oldlib.result()
+    chk.case(("library", "('-Cold',)"), nontrivial=True)
+    for (unit, phase, text) in oldlib["failures"]:
+        chk.violation("library unit %s does not compile under %s: %s" % (unit, oldlib["opts"], phase), {"unit": unit, "opts": oldlib["opts"], "text": text},
+                      key={"kind": "link-fail", "unit": unit, "opts": oldlib["opts"], "where": "library"})
+    chk.extra.update(boundaries_and_declarators(chk, b, wd, fam, variants, tiny, quick, rnd, oldlib, decl_progs, decl_exp))
+    chk.extra["model_split_rows"] = sorted(split_rows, key=lambda x: (x["S"], x["N"]))[:12]
+    marks["boundaries+declarators"] = time.time() - t_start
     # ---- 9. option machine: a later option of a group overrides an earlier one (drift only) -------------------
     ov_drift = []
     if variants:
@@ -764,13 +1115,16 @@ def replay(d):
     b = vlib.vbuild()
     wd = vlib.scratch("c16r")
     label = det["cfg"]
-    opts = [o for o in label.split(" [")[0].split() if o.startswith("-C") or o == "-Zdb"]
+    opts = [o for o in label.split(" [")[0].split() if o.startswith("-C") or o == "-Zdb" or o.startswith("-Q")]
     route = label.split("[")[-1].rstrip("]") if "[" in label else "shipped"
     open(os.path.join(wd, "p.as"), "w").write(det["source"])
     kw = {}
     m = [o for o in opts if o.startswith("-Cidlen=")]
     if route == "samelimit" and m:
         info = build_libs(b, (m[0],))
+        kw = {"axllib": info["axllib"], "rt": info["rt"]}
+    if route == "samedialect":
+        info = build_libs(b, ("-Cold",))
         kw = {"axllib": info["axllib"], "rt": info["rt"]}
     res = compile_units(b, wd, [("p", det["source"], True)], opts, **kw)
     print("options: %s   route: %s" % (" ".join(opts) or "(default)", route))
